@@ -66,6 +66,7 @@ func checkC06(c *Ctx) {
 		}
 	}
 	c.decide("ORDER-pinning", "Exporter.Close unpins after draining the channel", l.pos(cls.Pos()), ok, "decrVersionReaders is dominated by the drain loop", "the version is unpinned while the export goroutine may still be reading")
+	checkCloseOnce(c, "ORDER-pinning")
 	dvt := l.Func("", "*nodeDB.deleteVersionsTo")
 	fReaders := l.Field("", "nodeDB", "versionReaders")
 	if dvt != nil && fReaders != nil {
@@ -85,6 +86,7 @@ type freshAnalysis struct {
 	fHash    *types.Var
 	ctor     map[*ssa.Function]int // 1 fresh-constructor, 2 not, 3 in progress
 	paramMemo map[*ssa.Parameter]int
+	noUnsavedGuard bool // do not accept the `nodeKey == nil` guard at call sites (hash-memo freshness)
 }
 
 func (fa *freshAnalysis) isCtor(fn *ssa.Function) bool {
@@ -202,6 +204,9 @@ func (fa *freshAnalysis) freshValue(v ssa.Value, fn *ssa.Function, depth int, al
 func (fa *freshAnalysis) freshAt(v ssa.Value, at ssa.Instruction, depth int) bool {
 	if fa.freshValue(v, at.Parent(), depth, true) {
 		return true
+	}
+	if fa.noUnsavedGuard {
+		return false
 	}
 	return fa.unsavedGuard(v, at.Block())
 }
@@ -345,8 +350,62 @@ func nodeKeyOfFresh(fa *freshAnalysis, base ssa.Value, st *ssa.Store) bool {
 // ---------------------------------------------------------------------------
 // lockset
 
+// checkReaderFields: MutableTree has no lock of its own (it is single-writer).
+// The one MutableTree method readers call concurrently, GetImmutable, may
+// therefore only read fields that are never written after construction.
+func checkReaderFields(c *Ctx) {
+	l := c.L
+	mt := l.NamedType("", "MutableTree")
+	gim := l.Func("", "*MutableTree.GetImmutable")
+	ctor := l.Func("", "NewMutableTree")
+	if mt == nil || gim == nil || ctor == nil {
+		c.anchorMissing("LOCK-lockset", "MutableTree / GetImmutable / NewMutableTree")
+		return
+	}
+	written := map[string]bool{}
+	for _, fn := range l.SrcFuncs {
+		if l.pkgPathOf(fn) != l.ModPath || fn == ctor {
+			continue
+		}
+		allInstrs(fn, func(in ssa.Instruction) {
+			if st, ok := in.(*ssa.Store); ok {
+				if fa, ok := st.Addr.(*ssa.FieldAddr); ok {
+					if n := derefNamed(fa.X.Type()); n != nil && n.Obj() == mt.Obj() {
+						written[fieldName(fa.X.Type(), fa.Field)] = true
+					}
+				}
+			}
+		})
+	}
+	reach := l.reachableFrom(gim)
+	n := 0
+	for fn := range reach {
+		if !l.inModule(fn) || fn.Blocks == nil {
+			continue
+		}
+		allInstrs(fn, func(in ssa.Instruction) {
+			fa, ok := in.(*ssa.FieldAddr)
+			if !ok {
+				return
+			}
+			nn := derefNamed(fa.X.Type())
+			if nn == nil || nn.Obj() != mt.Obj() {
+				return
+			}
+			name := fieldName(fa.X.Type(), fa.Field)
+			n++
+			c.decide("LOCK-lockset", l.fname(fn)+" (reader entry) reads MutableTree."+name, l.ipos(in), !written[name],
+				"field is never written after construction", "the reader entry point accesses MutableTree."+name+", which the writer modifies without synchronisation (SaveVersion, Rollback, …): data race")
+		})
+	}
+	if n == 0 {
+		c.anchorMissing("LOCK-lockset", "GetImmutable reads no MutableTree field")
+	}
+}
+
 func checkLockset(c *Ctx) {
 	l := c.L
+	checkReaderFields(c)
 	ndbT := l.NamedType("", "nodeDB")
 	newNodeDB := l.Func("", "newNodeDB")
 	if ndbT == nil || newNodeDB == nil {
@@ -548,5 +607,40 @@ func checkLockset(c *Ctx) {
 			continue
 		}
 		c.bad("LOCK-lockset", key, l.ipos(a.in), "accessed without ndb.mtx in role ["+strings.Join(ra, ",")+"] while "+l.fname(with.fn)+" (role ["+strings.Join(rolesOf(with.fn), ",")+"]) accesses it at "+l.ipos(with.in)+": data race")
+	}
+}
+
+// checkCloseOnce: Exporter.Close releases its pin at most once.
+func checkCloseOnce(c *Ctx, rule string) {
+	l := c.L
+	cls := l.Func("", "*Exporter.Close")
+	decr := l.Func("", "*nodeDB.decrVersionReaders")
+	if cls == nil || decr == nil {
+		c.anchorMissing(rule, "Exporter.Close / decrVersionReaders")
+		return
+	}
+	decs := callsIn(cls, predStatic(decr))
+	// Close unpins at most once per exporter: the decrement is behind `e.tree != nil` and e.tree is cleared afterwards
+	fTree := l.Field("", "Exporter", "tree")
+	if fTree == nil {
+		c.anchorMissing(rule, "Exporter.tree")
+	} else {
+		gs := findGuards(cls, nilTestMatcher(isLoadOfField(fTree), true))
+		cleared := mustState(cls, false, func(in ssa.Instruction) bool {
+			st, ok := in.(*ssa.Store)
+			return ok && isStoreToField(in, fTree) && isNilConst(stripTrivial(st.Val))
+		}, nil)
+		okOnce := len(decs) > 0
+		for _, d := range decs {
+			if !guardsEffect(gs, d) {
+				okOnce = false
+			}
+		}
+		for _, r := range returnsOf(cls) {
+			if !cleared(r) {
+				okOnce = false
+			}
+		}
+		c.decide(rule, "Exporter.Close unpins at most once", l.pos(cls.Pos()), okOnce, "decrement only while e.tree != nil, and e.tree is cleared on every path", "a second Close() decrements the reader count again: it releases the pin of another open export of the same version, which can then be deleted")
 	}
 }
